@@ -20,6 +20,19 @@ POOL = ['a', 'Z', ' ', '\n', '\x00', 'é', 'ÿ', '\x80']
 WIDE = ['\u20ac', '\u0436', '\u6f22', '\u0301', '\u200d', '\U0001F600', '\U00010348', '\U0010FFFF', '\ud7ff', '\ue000', '\ufffd', '\uffff', '\ufeff', '\ufeff']
 
 
+def inc_kw(case):
+    """the `incremental` argument: left out (default True), or given as a true value that is not the builtin True"""
+    v = case.get('incremental')
+    if v == 'np_true':
+        import numpy
+        return {'incremental': numpy.bool_(True)}
+    if v == 'one':
+        return {'incremental': 1}
+    if v == 'true':
+        return {'incremental': True}
+    return {}
+
+
 class C17(Check):
     id = 'C17'
     title = 'incremental text codec is chunk-boundary independent'
@@ -56,6 +69,8 @@ class C17(Check):
             strings[0] = rng.choice(look) + strings[0]
         case = {'encoding': enc, 'strings': strings, 'cutseed': rng.randrange(1 << 30), 'sweep': rng.random() < 0.6}
         if rng.random() < 0.2:
+            case['incremental'] = rng.choice(['np_true', 'one', 'true'])
+        if rng.random() < 0.2:
             case['concurrent'] = [[''.join(rng.choice(pool) for _ in range(rng.choice([0, 1, 3, 8]))) for _ in range(rng.choice([1, 2, 3]))]
                                   for _ in range(rng.choice([1, 2]))]
         return case
@@ -63,6 +78,8 @@ class C17(Check):
     def valid(self, case):
         try:
             if case['encoding'] not in ENCODINGS:
+                return False
+            if case.get('incremental') not in (None, 'np_true', 'one', 'true'):
                 return False
             lg = case.get('long')
             if lg is not None:
@@ -97,7 +114,7 @@ class C17(Check):
         unit = lg['unit']
         reps = max(1, lg['bytes'] // max(1, len(unit.encode(enc if enc not in ('utf-16', 'utf-32') else enc + '-le'))))
         text = unit * reps
-        pieces, t = collect(rx.from_([text[:1000], text[1000:]]).pipe(rs.data.encode(enc)))
+        pieces, t = collect(rx.from_([text[:1000], text[1000:]]).pipe(rs.data.encode(enc, **inc_kw(case))))
         blob = b''.join(pieces)
         if t is None or t[0] != 'completed' or blob.decode(enc) != text:
             out.add('encode-failed', enc, {'terminal': repr(t), 'long_text_chars': len(text)})
@@ -111,7 +128,7 @@ class C17(Check):
                         continue
                     cs = [c for c in (lead, lead + size) if c > 0]
                     runs += 1
-                    got, term, _ = drive(cut(blob, cs), rs.data.decode(enc))
+                    got, term, _ = drive(cut(blob, cs), rs.data.decode(enc, **inc_kw(case)))
                     if term is None or term[0] != 'completed' or ''.join(got) != text:
                         j = ''.join(got)
                         d = next((x for x in range(min(len(j), len(text))) if j[x] != text[x]), min(len(j), len(text)))
@@ -138,7 +155,7 @@ class C17(Check):
         strings = list(case['strings'])
         text = ''.join(strings)
         p = out.probes
-        pieces, t = collect(rx.from_(strings).pipe(rs.data.encode(enc)))
+        pieces, t = collect(rx.from_(strings).pipe(rs.data.encode(enc, **inc_kw(case))))
         if t is None or t[0] != 'completed':
             out.add('encode-failed', enc, {'terminal': repr(t)})
             return out
@@ -174,14 +191,14 @@ class C17(Check):
         runs = 0
         for cs in scheds:
             runs += 1
-            got, term, _ = drive(cut(blob, cs), rs.data.decode(enc))
+            got, term, _ = drive(cut(blob, cs), rs.data.decode(enc, **inc_kw(case)))
             if term is None or term[0] != 'completed' or ''.join(got) != text:
                 out.add('roundtrip', enc, {'cuts': cs, 'terminal': repr(term), 'got': repr(''.join(got))[:300], 'expected': repr(text)[:300]})
                 break
         if not out.violations and case.get('concurrent'):
             streams = [strings] + [list(x) for x in case['concurrent']]
             rng = random.Random(case['cutseed'] ^ 0x99)
-            res = drive_concurrent(streams, lambda i: rs.data.encode(enc), merge_order(rng, [len(x) for x in streams]))
+            res = drive_concurrent(streams, lambda i: rs.data.encode(enc, **inc_kw(case)), merge_order(rng, [len(x) for x in streams]))
             p['concurrent_streams'] += 1
             blobs = [b''.join(o) for o, _ in res]
             for i, (o, t_i) in enumerate(res):
@@ -194,7 +211,7 @@ class C17(Check):
                     break
             if not out.violations:
                 cl = [cut(b, gen_cuts(rng, len(b), [1, 2, 3])) for b in blobs]
-                res = drive_concurrent(cl, lambda i: rs.data.decode(enc), merge_order(rng, [len(x) for x in cl]))
+                res = drive_concurrent(cl, lambda i: rs.data.decode(enc, **inc_kw(case)), merge_order(rng, [len(x) for x in cl]))
                 for i, (o, t_i) in enumerate(res):
                     if t_i is None or t_i[0] != 'completed' or ''.join(o) != ''.join(streams[i]):
                         out.add('concurrent-decode', enc, {'stream': i, 'of': len(streams), 'terminal': repr(t_i),
